@@ -6,6 +6,6 @@ from mcheck.props.c09 import BATCHES, mktrace
 from monkeytype.db.sqlite import SQLiteStore
 
 path, b = sys.argv[1], int(sys.argv[2])
-st = SQLiteStore(sqlite3.connect(path))
+st = SQLiteStore.make_store(path)   # the way every Config opens its store
 st.add([mktrace(s) for s in BATCHES[b]])
 st.conn.close()
